@@ -301,3 +301,124 @@ theorem restart_interrupted (bs : List (Blk × Blk)) (junk torn docs mfile : Byt
     exact (restart_inv bs [] [] _ _ hwf (.inl rfl) (by rw [hr, hd]; simp) (by rw [hr, hm]; simp)).2
 
 end SV.WPath
+
+namespace SV.WPath
+
+/-! ## which length fields the replay ever evaluates -/
+
+/-- the values of `FullLen` (`make([]byte, l)`) the replay loop computes on a meta file, in order -/
+def lensGo : Nat → Bytes → List Nat
+  | 0, _ => []
+  | fuel + 1, bytes =>
+    if bytes.length < headerLen then []
+    else
+      ((getLen bytes + headerLen) % two64) ::
+        match readDocBlock bytes with
+        | .full blk rest => if blk.length < headerLen then [] else lensGo fuel rest
+        | _ => []
+
+def replayLens (mfile : Bytes) : List Nat := lensGo (mfile.length + 1) mfile
+
+/-- on complete blocks followed by a prefix of the encoding of `b`, every allocation the replay asks for has the
+size of one of those blocks or of `b` -/
+theorem lensGo_stamped (bs : List (Blk × Blk)) (hwf : AllWF bs) (b : Blk) (hb : 33 + b.payload.length ≤ maxAlloc)
+    (k : Nat) (hk : k < (enc b).length) (off fuel : Nat) :
+    ∀ l ∈ lensGo fuel (metaOf bs off ++ (enc b).take k),
+      (∃ x ∈ bs, l = (enc x.2).length) ∨ l = (enc b).length := by
+  induction bs generalizing off fuel with
+  | nil =>
+    intro l hl
+    cases fuel with
+    | zero => simp [lensGo] at hl
+    | succ fuel =>
+      simp only [metaOf, stamped, List.map_nil, List.flatten_nil, List.nil_append, lensGo] at hl
+      split at hl
+      · simp at hl
+      · rename_i hlen
+        have hkl : ((enc b).take k).length = k := by simp [List.length_take]; omega
+        rw [hkl, headerLen] at hlen
+        have ht : (enc b).take k = hdr b.codec b.payload.length b.rawLen b.ext1 b.ext2 ++ b.payload.take (k - 33) := by
+          simp only [enc]
+          rw [List.take_append, List.take_of_length_le (by rw [hdr_length]; omega)]
+          simp [hdr_length]
+        have hm : maxAlloc < two64 := by decide
+        have hget : (getLen ((enc b).take k) + headerLen) % two64 = (enc b).length := by
+          rw [ht, getLen_hdr, headerLen, Nat.mod_eq_of_lt (a := b.payload.length) (by omega),
+            Nat.mod_eq_of_lt (by omega), enc_length]; omega
+        have hrd := readDocBlock_torn _ (torn_take b hb k hk)
+        rcases hrd with hrd | hrd <;> simp [hrd, hget] at hl <;> exact .inr hl
+  | cons x bs ih =>
+    obtain ⟨d, m⟩ := x
+    intro l hl
+    cases fuel with
+    | zero => simp [lensGo] at hl
+    | succ fuel =>
+      have hx := hwf (d, m) (by simp)
+      have hmeta : metaOf ((d, m) :: bs) off ++ (enc b).take k =
+          enc { m with ext1 := (enc d).length, ext2 := off } ++ (metaOf bs (off + (enc d).length) ++ (enc b).take k) := by
+        simp [metaOf, stamped]
+      rw [hmeta] at hl
+      simp only [lensGo] at hl
+      have hlen : ¬ (enc { m with ext1 := (enc d).length, ext2 := off } ++
+          (metaOf bs (off + (enc d).length) ++ (enc b).take k)).length < headerLen := by
+        simp [enc_length, headerLen]; omega
+      rw [if_neg hlen, readDocBlock_enc _ (by exact hx.2.size)] at hl
+      have hm : maxAlloc < two64 := by decide
+      have hget : (getLen (enc { m with ext1 := (enc d).length, ext2 := off } ++
+          (metaOf bs (off + (enc d).length) ++ (enc b).take k)) + headerLen) % two64 = (enc m).length := by
+        have hsz : 33 + m.payload.length ≤ maxAlloc := hx.2.size
+        rw [getLen_enc { m with ext1 := (enc d).length, ext2 := off } hsz]
+        show (m.payload.length + headerLen) % two64 = (enc m).length
+        rw [enc_length, headerLen, Nat.mod_eq_of_lt (by omega)]; omega
+      have hl2 : ¬ (enc { m with ext1 := (enc d).length, ext2 := off }).length < headerLen := by
+        simp [enc_length, headerLen]
+      simp only [hget, hl2, if_false, List.mem_cons] at hl
+      rcases hl with hl | hl
+      · exact .inl ⟨(d, m), by simp, hl⟩
+      · rcases ih (fun y hy => hwf y (by simp [hy])) _ _ l hl with ⟨y, hy, h⟩ | h
+        · exact .inl ⟨y, by simp [hy], h⟩
+        · exact .inr h
+
+end SV.WPath
+
+namespace SV.WPath
+
+/-- the meta file a crash inside a bulk leaves: complete blocks of old bulks (and possibly the new one) followed by a
+strict prefix of a block that has the size of the new meta block -/
+theorem crashDisk_meta_form (st : St) (bs : List (Blk × Blk)) (d m : Blk) (pt : CrashPt) (h : InvD st bs [] [])
+    (hd : d.WF) (hm : m.WF) :
+    ∃ bs' b k, AllWF bs' ∧ 33 + b.payload.length ≤ maxAlloc ∧ k < (enc b).length ∧ (enc b).length = (enc m).length ∧
+      (crashDisk st (enc d) (enc m) pt).2 = metaOf bs' 0 ++ (enc b).take k ∧ (∀ x ∈ bs', x ∈ bs ∨ x = (d, m)) := by
+  have hmf : st.mfile = metaOf bs 0 := by simpa using h.mfile
+  have hdocs : st.docs = docsOf bs := by simpa using h.docs
+  have hoffD : st.offD = (docsOf bs).length := by rw [h.offD, hdocs]
+  have hpos : 0 < (enc m).length := by rw [enc_length]; omega
+  cases pt with
+  | docsTorn k =>
+    exact ⟨bs, m, 0, h.wf, hm.size, hpos, rfl, by simp [crashDisk, hmf], fun x hx => .inl hx⟩
+  | metaTorn k =>
+    have hst : stampMeta (enc m) (enc d).length st.offD = enc { m with ext1 := (enc d).length, ext2 := (docsOf bs).length } := by
+      rw [stampMeta_enc, hoffD]
+    have hlen : (enc { m with ext1 := (enc d).length, ext2 := (docsOf bs).length }).length = (enc m).length := by
+      simp [enc_length]
+    by_cases hk : (enc m).length ≤ k
+    · have hinv := append_inv st bs d m h hd hm
+      refine ⟨bs ++ [(d, m)], m, 0, hinv.wf, hm.size, hpos, rfl, ?_, ?_⟩
+      · have := hinv.mfile
+        simp only [append] at this
+        simp only [crashDisk]
+        rw [List.take_of_length_le (by rw [hst, hlen]; exact hk)]
+        simpa using this
+      · intro x hx
+        simp only [List.mem_append, List.mem_singleton] at hx
+        exact hx
+    · refine ⟨bs, { m with ext1 := (enc d).length, ext2 := (docsOf bs).length }, k, h.wf, hm.size, by rw [hlen]; omega,
+        hlen, ?_, fun x hx => .inl hx⟩
+      simp [crashDisk, h.offM, writeAt_end, hmf, hst]
+
+theorem attemptedOf_append (a b : List Ev) : attemptedOf (a ++ b) = attemptedOf a ++ attemptedOf b := by
+  induction a with
+  | nil => rfl
+  | cons e a ih => cases e <;> simp [attemptedOf, ih]
+
+end SV.WPath
